@@ -821,12 +821,12 @@ class Runner:
                 what = "entry-left" if p in self._pre_I else "entry-added"
             elif a[1] == w[1]:
                 what, wkc = "mode-not-updated", ""  # same blob, stale mode (x bit or file<->symlink)
-            if opname == "rm_cached":
-                wkc = ""  # what the directory holds at the path is irrelevant for removing an index entry
             elif a[0] != w[0]:
                 what = f"mode-{MODE_KIND.get(w[0], '?')}-as-{MODE_KIND.get(a[0], '?')}"
             else:
                 what = "wrong-blob"
+            if opname == "rm_cached":
+                wkc = ""  # what the directory holds at the path is irrelevant for removing an index entry
             self.fail(f"C18:{opname}:{rel}:{what}{wkc}",
                       f"after {self.ops[-1]!r}: index entry {p!r} is {a}, git's equivalent leaves {w}; before: {self._pre_I.get(p)}, "
                       f"directory: {self.W.get(p, wk)}")
